@@ -187,24 +187,36 @@ func RunC10(t *testing.T, tape *Tape) *Outcome {
 	o := &Outcome{Detail: map[string]any{}, FaultFired: map[string]int{}}
 	ndefs := 1 + tape.Choose(4)
 	defs := make([]*c10Def, ndefs)
+	// how the session defines things: always through Eval (no context is seen
+	// before the first cancellable evaluation), always through EvalWithContext, or mixed
+	style := tape.Choose(3)
 	for j := range defs {
-		defs[j] = &c10Def{kind: tape.Choose(nDefKinds), a: 2 + tape.Choose(5), b: 1 + tape.Choose(9), viaCtx: tape.Choose(2) == 1}
+		defs[j] = &c10Def{kind: tape.Choose(nDefKinds), a: 2 + tape.Choose(5), b: 1 + tape.Choose(9), viaCtx: style == 1 || (style == 2 && tape.Choose(2) == 1)}
 		if defs[j].kind == dCounterClosure || defs[j].kind == dGlobalCounter {
 			defs[j].state = defs[j].b
 		}
 	}
 	nsteps := 2 + tape.Choose(9)
 	var steps []c10Step
+	// half of the steps concern one definition of the history (a cancelled
+	// evaluation that touches a definition matters to later uses of THAT one)
+	focus := tape.Choose(ndefs)
+	pick := func() int {
+		if tape.Choose(2) == 0 {
+			return focus
+		}
+		return tape.Choose(ndefs)
+	}
 	for i := 0; i < nsteps; i++ {
 		switch tape.Choose(5) {
 		case 0, 1:
-			steps = append(steps, c10Step{Kind: "cancel", CK: tape.Choose(nCancelKinds), K: 1 + tape.Choose(60), Def: tape.Choose(ndefs)})
+			steps = append(steps, c10Step{Kind: "cancel", CK: tape.Choose(nCancelKinds), K: 1 + tape.Choose(60), Def: pick()})
 		case 2:
-			steps = append(steps, c10Step{Kind: "use-eval", Def: tape.Choose(ndefs), Arg: 1 + tape.Choose(9), K: tape.Choose(6)})
+			steps = append(steps, c10Step{Kind: "use-eval", Def: pick(), Arg: 1 + tape.Choose(9), K: tape.Choose(6)})
 		case 3:
-			steps = append(steps, c10Step{Kind: "use-ctx", Def: tape.Choose(ndefs), Arg: 1 + tape.Choose(9), K: tape.Choose(6)})
+			steps = append(steps, c10Step{Kind: "use-ctx", Def: pick(), Arg: 1 + tape.Choose(9), K: tape.Choose(6)})
 		case 4:
-			steps = append(steps, c10Step{Kind: "use-host", Def: tape.Choose(ndefs), Arg: 1 + tape.Choose(9)})
+			steps = append(steps, c10Step{Kind: "use-host", Def: pick(), Arg: 1 + tape.Choose(9)})
 		}
 	}
 	var hist []string
@@ -243,6 +255,7 @@ func RunC10(t *testing.T, tape *Tape) *Outcome {
 	opsAtReturn := map[*Task]int{} // leftovers of cancelled evaluations: operations started when their call returned
 	var sinkC10 *host.Sink
 	var i1fail []string
+	drainLeft := map[int][]*Task{} // chan-state definition -> leftovers of cancelled evaluations ranging over its channel
 	res := Simulate(t, tape, cfg, func(r *Run) {
 		sinkC10 = r.NewSink(65536, nil)
 		host.Cur.Store(sinkC10)
@@ -340,6 +353,11 @@ func RunC10(t *testing.T, tape *Tape) *Outcome {
 						src = "for { host.Tick(1) }"
 					case xBlocked:
 						src = "cc := make(chan int); <-cc"
+						if d.kind == dChanState {
+							// blocked ranging over the (empty) channel of a definition
+							src = fmt.Sprintf("host.Tick(Drain%d())", s.Def)
+							target = s.Def
+						}
 					case xExpired:
 						// never started; what its compilation did (instantiating generic
 						// types, resolving the definitions) must not harm later uses
@@ -388,6 +406,13 @@ func RunC10(t *testing.T, tape *Tape) *Outcome {
 						if !tk.Client && !tk.Exited() {
 							if _, seen := opsAtReturn[tk]; !seen {
 								opsAtReturn[tk] = tk.Ops
+							}
+						}
+					}
+					if target >= 0 && defs[target].kind == dChanState {
+						for _, tk := range r.Tasks() {
+							if !tk.Client && !tk.Exited() {
+								drainLeft[target] = append(drainLeft[target], tk)
 							}
 						}
 					}
@@ -467,6 +492,25 @@ func RunC10(t *testing.T, tape *Tape) *Outcome {
 	}
 	for _, m := range mism {
 		d := defs[m.def]
+		if d.kind == dChanState && m.got == "-1" {
+			// The one operation a cancelled evaluation had in flight (C09 allows
+			// it) may be the receive of `for v := range q`: a task that had not yet
+			// started that operation when its call returned starts it afterwards and
+			// may take the value the use has just put. Inherent to stopping after the
+			// operation in flight, like the lock window: not judged. (A task parked
+			// IN the receive when the call returned started nothing afterwards and
+			// is judged.)
+			inflight := false
+			for _, tk := range drainLeft[m.def] {
+				if tk.Ops-opsAtReturn[tk] == 1 {
+					inflight = true
+				}
+			}
+			if inflight {
+				o.FaultFired["in-flight receive of a cancelled evaluation took the value (not judged)"]++
+				continue
+			}
+		}
 		o.addV("C10", "use", fmt.Sprintf("use-mismatch kind=%s via=%s after=%s", defKindName[d.kind], m.via, m.after),
 			"step %d: %s of %s gave %s, the model says %d (definition made %s; last cancelled evaluation before this use: %s)",
 			m.step, m.via, d.callee(m.def), m.got, m.want, map[bool]string{true: "through EvalWithContext", false: "through Eval"}[d.viaCtx], m.afterD)
